@@ -40,3 +40,10 @@ GROUPS += [
           flags=["--no-malloc-may-fail"], functions=["mpq_EGlpNumSet_mpf"], props=["C18", "C17"],
           assumed=["life/set_mpf_zero: GMP model variant TOKENS, extended to mpf numbers (mpf_init allocates limbs in the real library)"]),
 ]
+
+GROUPS += [
+    Group("life/load_norms", "qs_load_norms.c", tus=["qsopt_mpq.c", "lpdata_mpq.c", "allocrus.c", "eg_lpnum.c"], model=MODEL, defines=TOK, dfcc=False, unwind=5, kind="bounded", leak=True, timeout=900,
+          bound="problem of 1 column and 2 rows (size-header arrays need compile-time lengths), old basis absent / with / without row and column norms, symbolic norm values; loops completely unwound",
+          flags=["--no-malloc-may-fail"], must_fail=["reach_end", "reach_old_basis_with_row_norms"], functions=["QSload_basis_and_row_norms_array", "QSload_basis_array", "check_basis_arrays", "ILLlp_basis_free"],
+          props=["C18", "C12", "C17"], assumed=["life/load_norms: GMP model variant TOKENS"]),
+]
